@@ -11,7 +11,9 @@ SHARD = 150
 MAX_DRIVER_SHARDS = 8
 RULE = ("one case = one store (recordings of real decorated operations whose class names are the prefix-related "
         "categories A, AB, A_B, B on one of the three real cassettes) + one PlaybackStudio.play() request (explicit "
-        "id list in any order with duplicates and unknown ids / lookup mode over a category list) + the set of "
+        "id list in any order with duplicates and unknown ids, 1 to 30+ ids, next to lookup properties without a "
+        "limit / the studio's default ones (limit 20) / caller-supplied limits smaller than the number of selected "
+        "ids of one category; or lookup mode over a category list) + the set of "
         "categories whose tuning cannot be created + a consumption script for the lazy result generators; "
         "non-trivial = at least two prefix-related categories are involved; distinct = distinct canonical case")
 EXHAUSTIVE = {"quick": False, "thorough": False}
@@ -85,11 +87,73 @@ def explicit_case(rng, kind, recs, fail=None):
     if rng.random() < 0.3 and ids:
         ids.append(rng.choice(ids))
     universe = sorted({recs[i]["cat"] if isinstance(i, int) else "C" for i in ids} | {"A"})
-    return dict(cassette=kind, recs=recs, mode="explicit", ids=ids,
+    case = dict(cassette=kind, recs=recs, mode="explicit", ids=ids,
                 categories=rng.choice([None, None, ["B", "C"], []]),
                 fail=rand_fail(rng, universe) if fail is None else fail,
                 config=rng.choice([None, "default", "keep"]),
                 script=[rng.randrange(12) for _ in range(rng.randrange(1, 9))])
+    # lookup properties handed to a studio that is given explicit ids: they drive lookups only, the selection is
+    # played as given (absent = properties without a limit, as before)
+    k = rng.random()
+    if k < 0.25:
+        case["lp"] = dict(default=True)
+    elif k < 0.6:
+        case["lp"] = dict(limit=rng.choice([1, 1, 2, 3, 5, 20]), skip_incomplete=rng.random() < 0.75)
+    return case
+
+
+def long_explicit_case(rng, kind, recs, lp, major=None, n_major=None):
+    """An explicit selection holding MORE ids of one category than the lookup properties' limit (the studio's own
+    default properties: 20), next to a few ids of the other categories: every selected id is played, lookup
+    properties or not.  Distinct ids as far as the store has them, then repeats (an id list may name a recording twice)."""
+    by = {}
+    for i, r in enumerate(recs):
+        by.setdefault(r["cat"], []).append(i)
+    if major is None:
+        major = max(sorted(by), key=lambda c: (len(by[c]), rng.random()))
+    limit = 20 if lp is None or lp.get("default") else (lp.get("limit") or 0)
+    if n_major is None:
+        n_major = limit + rng.choice([1, 1, 2, 7])
+    pool = list(by[major])
+    rng.shuffle(pool)
+    ids = pool[:n_major]
+    while len(ids) < n_major:
+        ids.append(rng.choice(by[major]))
+    for c in sorted(by):
+        if c != major:
+            ids += [rng.choice(by[c]) for _ in range(rng.choice([0, 1, 3]))]
+    k = rng.random()
+    if k < 0.4:
+        rng.shuffle(ids)
+    elif k < 0.6:
+        ids = sorted(ids, key=lambda i: (recs[i]["cat"], i))
+    case = dict(cassette=kind, recs=recs, mode="explicit", ids=ids, categories=rng.choice([None, None, ["B", "C"]]),
+                fail=[] if rng.random() < 0.7 else [rng.choice(sorted(by))],
+                config=rng.choice([None, "default", "keep"]),
+                script=rng.choice([[0], [1, 0], [rng.randrange(12) for _ in range(rng.randrange(2, 9))]]))
+    if lp is not None:
+        case["lp"] = lp
+    return case
+
+
+def gen_big_store(rng, kind):
+    """a store with well over 20 recordings of one category (more than the studio's default lookup limit)"""
+    major = rng.choice(CATS)
+    recs = []
+    for n in range(rng.choice([26, 30])):
+        r = dict(cat=major if n < 23 or rng.random() < 0.5 else rng.choice(CATS),
+                 beh=rng.choice(BEHS))
+        if kind == "s3":
+            r["day"] = rng.choice([0, 0, 1, 2])
+        recs.append(r)
+    for c in CATS[:2] + [rng.choice(CATS[2:])]:
+        for _ in range(2):
+            r = dict(cat=c, beh="ok")
+            if kind == "s3":
+                r["day"] = 0
+            recs.append(r)
+    rng.shuffle(recs)
+    return recs, major
 
 
 def lookup_case(rng, kind, recs, fail=None):
@@ -163,12 +227,30 @@ def generate(rng, tier):
                 for _ in range(3 if tier == "quick" else 6):
                     cases.append(uneven_case(rng, kind, recs, rng.choice(
                         ["dedicated", "dedicated:1", "dedicated:2", "dedicated:5:keep", "dedicated:3"])))
+            # explicit selections longer (per category) than the limit of the lookup properties the studio holds
+            # - its own default properties (limit 20) or properties supplied by the caller; always in the quick tier
+            if s == 0 or tier != "quick":
+                for lp in (None, dict(default=True), dict(limit=1), dict(limit=2, skip_incomplete=False),
+                           dict(limit=rng.choice([3, 5, 8]))):
+                    cases.append(long_explicit_case(rng, kind, recs, lp))
             # degenerate requests
             cases.append(dict(cassette=kind, recs=recs, mode="lookup", ids=None, categories=None, fail=[], script=[0]))
             cases.append(dict(cassette=kind, recs=recs, mode="lookup", ids=[], categories=[], fail=[], script=[0]))
             if kind == "s3":
                 cases.append(dict(cassette=kind, recs=recs, mode="explicit", ids=[0, "A/m1", 1], categories=None,
                                   fail=[], script=[0]))
+        # a store with more than 20 recordings of one category: long explicit selections of DISTINCT ids, and a lookup
+        # under the default limit next to them (the limit applies there, and only there)
+        for _ in range(1 if tier == "quick" else 3):
+            recs, major = gen_big_store(rng, kind)
+            for lp in (dict(default=True), None, dict(limit=20), dict(limit=rng.choice([2, 7, 19]))):
+                cases.append(long_explicit_case(rng, kind, recs, lp, major=major))
+            cases.append(long_explicit_case(rng, kind, recs, dict(default=True), major=major, n_major=20))
+            cases.append(long_explicit_case(rng, kind, recs, dict(default=True), major=major, n_major=23))
+            for lp in (dict(limit=20, skip_incomplete=False), dict(limit=None, skip_incomplete=False)) + \
+                    ((dict(default=True),) if kind != "s3" else ()):
+                cases.append(dict(cassette=kind, recs=recs, mode="lookup", ids=None, categories=[major, "B", "A"],
+                                  fail=[], lp=lp, config=None, script=[1, 0]))
     return cases
 
 
@@ -497,7 +579,21 @@ def features(case):
         f.add("uneven-categories-interleaved")
     if case.get("ids"):
         ids = case["ids"]
-        f.add("ids=%s" % ("1" if len(ids) == 1 else "2-5" if len(ids) <= 5 else "6+"))
+        f.add("ids=%s" % ("1" if len(ids) == 1 else "2-5" if len(ids) <= 5 else "6-20" if len(ids) <= 20 else "21+"))
+        lp = case.get("lp")
+        f.add("explicit-ids-with-lookup-properties=%s" % (
+            "unlimited" if lp is None else "studio-default" if lp.get("default") else "limit-%s" % lp.get("limit")))
+        limit = None if lp is None else 20 if lp.get("default") else lp.get("limit")
+        per_cat = {}
+        for i in ids:
+            c = case["recs"][i]["cat"] if isinstance(i, int) else i.split("/")[0]
+            per_cat.setdefault(c, []).append(i)
+        if limit is not None and any(len(v) > limit for v in per_cat.values()):
+            f.add("more-ids-of-one-category-than-lookup-limit")
+            if any(len(set(map(str, v))) > limit for v in per_cat.values()):
+                f.add("more-distinct-ids-of-one-category-than-lookup-limit")
+        if any(len(v) > 20 for v in per_cat.values()):
+            f.add("more-than-20-ids-of-one-category")
         if len(set(map(str, ids))) < len(ids):
             f.add("duplicate-ids")
         if any(not isinstance(i, int) for i in ids):
@@ -571,7 +667,10 @@ MANIFEST = dict(
          'sorted categories, per-category tuning or error, explicit ids or per-category lookup, in-process equalizer with '
          'the tuning carried as tags through every comparison); model tied to /repo on every run by running the real '
          'PlaybackStudio + TapeRecorder over the three real cassettes with a tagging tuner on generated stores/requests '
-         'and comparing with the model by vm_compute; direct predicate on the implementation searches for a failing request.',
+         'and comparing with the model by vm_compute; direct predicate on the implementation searches for a failing request. '
+         'Explicit selections are also played next to lookup properties whose limit (the default 20, or 1-20 supplied '
+         'by the caller) is smaller than the number of selected ids of one category: the limit belongs to lookups, every '
+         'selected id is played.',
     note='Trusted: Coq kernel + vm_compute; hand-written model; correspondence harness (tagging tuner, lookup spy, fake '
          'bucket/clock). Lookup content is an oracle specified by C10; dedicated comparison processes are C08/C13.',
     technique='Coq proof (induction over id / category lists) + model/implementation correspondence by vm_compute',
